@@ -39,6 +39,15 @@ WEIGHTED = ("ad", "ac", "az", "az1", "an", "at", "zop")
 #   an  : weights of both signs (every other edge negative)          at : all weights equal (2.0): ties everywhere
 # plus, on every root: vertex numbers -1 and n (just outside [0, n-1]) and masks of length n-1 and n+1.
 B_VARIANTS = ["az", "az1", "zop", "an", "at"]
+
+# option letters: every documented keyword option of a public call under the property is crossed with every other
+SP_ALGORITHMS = ["auto", "FW", "D", "BF", "J"]  # scipy's names (the names in menpo's docstring are rejected by scipy)
+SP_PRODUCT = [(a, u, k) for a in SP_ALGORITHMS for u in (False, True) for k in (False, True)]  # algorithm x unweighted x skip_checks
+# all PAIRS of option values (10 calls): every (algorithm, unweighted), (algorithm, skip_checks), (unweighted, skip_checks)
+SP_PAIRS = [(a, u, bool((i + j) % 2)) for i, a in enumerate(SP_ALGORITHMS) for j, u in enumerate((False, True))]
+PATH_PRODUCT = [(mth, k) for mth in ("bfs", "dfs") for k in (False, True)]  # method x skip_checks
+CTOR_OPTIONS = [(c, k) for c in (True, False) for k in (False, True)]  # copy x skip_checks
+GRID_OPTIONS = [(sp, adj, k) for sp in ("none", "2", "2x3") for adj in (False, True) for k in (False, True)]  # spacing x adjacency given x skip_checks
 # A stored zero is documented as a non-edge.  Construction letters (az, az1): since the fix D35 the constructor drops
 # explicitly stored zeros, so every query - also those menpo delegates to scipy.csgraph, which would read a stored
 # zero as a zero-weight edge - is asked there (revert-D35 must be caught).
@@ -78,6 +87,7 @@ class C14(Check):
 
     def __init__(self, tier, seed):
         super(C14, self).__init__(tier, seed)
+        self._opt_product = False  # True while the ("static",) / ("tree",) letters run: option cross products of the queries
         self._dist_ok = True  # False on stored-zero letters while ZERO_WEIGHT_CSGRAPH_OPS is off
         self._vc = int  # how vertex arguments are presented to menpo (argument-form letter of the current state)
         self._reported = set()  # (root, finding id): an open finding is returned as a Failure once per root
@@ -137,6 +147,7 @@ class C14(Check):
         # the family roots are the expensive ones (seconds each): spread them evenly through the list so that
         # the contiguous chunks handed to the worker processes each get a few of them
         out.extend(self._boundary_roots())
+        out.extend(self._option_roots())
         fam = self._family_roots() + self._form_roots()
         stride = max(1, len(out) // max(1, len(fam)))
         mixed = []
@@ -179,6 +190,9 @@ class C14(Check):
             for kind in ("U", "D"):
                 out.append(("F", "grid", code, 0, kind, "P", "pre", "full"))
                 out.append(("F", "grid", code, 0, kind, "P", "ac", "full"))
+        for oi in range(len(GRID_OPTIONS)):  # init_2d_grid: spacing x adjacency_matrix given x skip_checks
+            for kind in ("U", "D"):
+                out.append(("F", "grid", 304, oi, kind, "P", "gopt", "lite"))
         for shape in [(1, 1), (1, 4), (4, 1), (2, 2)]:  # degenerate grids: one vertex, one row, one column, one cell
             for kind in ("U", "D"):
                 out.append(("F", "grid", shape[0] * 100 + shape[1], 0, kind, "P", "pre", "full"))
@@ -212,6 +226,26 @@ class C14(Check):
                     for cls in ("A", "P"):
                         for v in ("an", "at") + (("az", "az1") if ZERO_WEIGHT_CSGRAPH_OPS else ()):
                             out.append(("B", "T", n, code, r, cls, v, "full"))
+        return out
+
+    def _option_roots(self):
+        """constructor options copy x skip_checks, each given explicitly, for every construction kind."""
+        out = []
+        quick = self.tier == "quick"
+        graphs = []
+        for n in range(1, 4 if quick else 5):
+            graphs += [("U", n, bits, 0) for bits in range(2 ** len(und_pairs(n)))]
+        for n in range(1, 4):
+            graphs += [("D", n, bits, 0) for bits in range(2 ** len(dir_pairs(n)))]
+        for n in range(2, 5):
+            graphs += [("T", n, code, r) for code in range(1 if n == 2 else n ** (n - 2)) for r in range(n)]
+        for sub, n, code, r in graphs:
+            for cls in ("A", "P"):
+                for v in ("el", "ad", "ac"):
+                    for oi, (c, k) in enumerate(CTOR_OPTIONS):
+                        if v == "el" and cls == "A" and sub != "T" and not c:
+                            continue  # UndirectedGraph / DirectedGraph.init_from_edges have no copy option
+                        out.append(("O", sub, n, code, r, cls, v, oi, "lite"))
         return out
 
     def _form_roots(self):
@@ -264,6 +298,26 @@ class C14(Check):
                 troot = None
                 directed = sub == "D"
             salt = ("B", sub, n, code, troot)
+        elif kind == "O":
+            _, sub, n, code, troot, cls, variant, oi, mode = root
+            if sub == "T":
+                edges = orient_from_root(n, prufer_tree(n, code), troot)
+                directed = True
+            else:
+                pairs = und_pairs(n) if sub == "U" else dir_pairs(n)
+                edges = [p for i, p in enumerate(pairs) if (code >> i) & 1]
+                troot = None
+                directed = sub == "D"
+            salt = ("O", sub, n, code, troot)
+            pts = self._points(n, salt) if cls == "P" else None
+            weights = self._weights(edges, salt) if variant in WEIGHTED else None
+            c, k = CTOR_OPTIONS[oi]
+            opts = {"skip_checks": k}
+            if not (variant == "el" and cls == "A" and sub != "T"):
+                opts["copy"] = c
+            st = self._construct(root, directed, troot, cls, variant, n, edges, weights, pts, mode, opts)
+            st["ctor"] = None  # Tree(root) readings are asked on the plain construction letters
+            return st
         elif kind == "X":
             return self._build_form(root)
         else:
@@ -331,18 +385,20 @@ class C14(Check):
             return "adj", csr_matrix((dense[r, c], (r, c)), shape=(n, n))
         raise ValueError(variant)
 
-    def _instantiate(self, klass, how, arg, n, pts, troot, raw=False):
-        """raw: hand the arguments over exactly as they are (argument-form letters must not be copied away)."""
+    def _instantiate(self, klass, how, arg, n, pts, troot, raw=False, opts=None):
+        """raw: hand the arguments over exactly as they are (argument-form letters must not be copied away).
+        opts: keyword options (copy, skip_checks) given explicitly."""
+        kw = dict(opts or {})
         point = pts is not None
         p = pts if (raw or not point) else pts.copy()
         if how == "edges":
             if point:
-                return klass.init_from_edges(p, arg, troot) if troot is not None else klass.init_from_edges(p, arg)
-            return klass.init_from_edges(arg, n, troot) if troot is not None else klass.init_from_edges(arg, n)
+                return klass.init_from_edges(p, arg, troot, **kw) if troot is not None else klass.init_from_edges(p, arg, **kw)
+            return klass.init_from_edges(arg, n, troot, **kw) if troot is not None else klass.init_from_edges(arg, n, **kw)
         a = arg if raw else arg.copy()
         if point:
-            return klass(p, a, troot) if troot is not None else klass(p, a)
-        return klass(a, troot) if troot is not None else klass(a)
+            return klass(p, a, troot, **kw) if troot is not None else klass(p, a, **kw)
+        return klass(a, troot, **kw) if troot is not None else klass(a, **kw)
 
     # ---- argument forms
     @staticmethod
@@ -490,12 +546,12 @@ class C14(Check):
                 arcs[(e[1], e[0])] = w
         return RefGraph(n, directed, arcs, weights_defined=(variant != "ed"))
 
-    def _construct(self, root, directed, troot, cls, variant, n, edges, weights, pts, mode):
+    def _construct(self, root, directed, troot, cls, variant, n, edges, weights, pts, mode, opts=None):
         klass = self._classes(directed, troot, cls)
         how, arg = self._ctor_args(directed, variant, n, edges, weights)
         refused = None
         try:
-            g = self._instantiate(klass, how, arg, n, pts, troot)
+            g = self._instantiate(klass, how, arg, n, pts, troot, opts=opts)
         except ValueError as ex:
             if troot is None:
                 raise
@@ -562,6 +618,23 @@ class C14(Check):
         troot = (extra if name == "star" else 0) if kind == "T" else None
         pts = self._points(n, ("F", name, size), d=3 if name in ("star", "binary") else 2)
         klass = self._classes(directed, troot, cls)
+        if variant == "gopt":
+            from scipy.sparse import csr_matrix
+
+            sp, adj, k = GRID_OPTIONS[extra]
+            lattice = np.zeros((n, n))
+            for (a, b) in edges:
+                lattice[a, b] = lattice[b, a] = 1
+            g = klass.init_2d_grid(
+                (size // 100, size % 100),
+                spacing={"none": None, "2": 2, "2x3": (2, 3)}[sp],
+                adjacency_matrix=csr_matrix(lattice) if adj else None,
+                skip_checks=k,
+            )
+            return {
+                "root": root, "g": g, "m": self._model(directed, n, edges, None, variant), "pts": np.array(g.points, copy=True),
+                "cls": klass.__name__, "troot": None, "mode": mode, "ctor": None, "family": True, "refused": None,
+            }
         if variant == "pre":
             shape = ms.PointCloud(pts.copy())
             if name == "chain":
@@ -622,15 +695,24 @@ class C14(Check):
         return True
 
     def _sp_letters(self, st):
+        """(algorithm, unweighted, skip_checks) letters of find_shortest_path for this state.
+        Full cross product on the weighted letters of the small scope (abstract classes); all PAIRS of option values elsewhere
+        (unit-weight letters, families, argument-form roots, the largest thorough scope)."""
         m = st["m"]
-        letters = [("auto", True)]
-        if self._wsp_ok(m):
-            letters.insert(0, ("auto", False))
-            if self.tier == "thorough" and st["cls"] in ("UndirectedGraph", "DirectedGraph", "Tree") and not st["family"] and not self._largest_scope(st):
-                # scipy's own method names: the names listed in menpo's docstring ('dijkstra', 'floyd-warshall',
-                # ...) are rejected by the installed scipy (ValueError: unrecognized method) - not a C14 matter
-                letters += [("FW", False), ("D", False), ("BF", False), ("J", False)]
-        return letters
+        small = st["root"][0] in ("U", "D", "T", "B") and not self._largest_scope(st)
+        weighted = st["root"][-2] in WEIGHTED
+        abstract = not st["cls"].startswith("Point")  # the point-carrying classes inherit the method unchanged
+        letters = SP_PRODUCT if (small and weighted and abstract) else SP_PAIRS
+        if st["root"][0] == "X":
+            letters = [("auto", False, False), ("auto", True, False)]  # argument forms vary one argument, options stay at their defaults
+        wok = self._wsp_ok(m)
+        neg = any(w < 0 for w in m.w.values())
+        out = []
+        for (a, u, k) in letters:
+            if not u and (not wok or (neg and a == "D")):
+                continue  # weighted distances undefined here / Dijkstra is not defined for negative weights
+            out.append((a, u, k))
+        return out
 
     @staticmethod
     def _largest_scope(st):
@@ -682,6 +764,8 @@ class C14(Check):
             out += [("oor", -1), ("oor", n)]
             if st["cls"].startswith("Point"):
                 out += [("masklen", n - 1), ("masklen", n + 1)]
+        if level == 0 and st["root"][0] == "F" and st["root"][1] == "chain" and st["root"][6] == "pre" and is_tree_obj:
+            out.append(("closed-tree",))  # chain_graph: graph_cls x closed - the documented refusal of the combination
         if level == 0 and st["root"][0] == "B" and st["root"][6] == "zop":
             out += [("zero", a, b) for (a, b) in m.edge_list()]
         second_mask = True
@@ -703,9 +787,8 @@ class C14(Check):
                 pairs = [(0, n - 1), (n - 1, 0), (0, 1), (n // 2, n // 2), (1, n // 3), (n // 3, n - 2), (n - 2, n // 2), (n // 2, 0), (7, n - 3), (n - 1, n - 1)]
             for s, e in pairs:
                 out.append(("path", s, e))
-                if m.weights_defined:
-                    out.append(("sp", s, e, "auto", False))
-                out.append(("sp", s, e, "auto", True))
+                for alg, unw, k in self._sp_letters(st):
+                    out.append(("sp", s, e, alg, unw, k))
             if not m.directed:
                 for r in few:
                     out.append(("mst", r))
@@ -726,9 +809,9 @@ class C14(Check):
             if not (level == 0 and self.tier == "thorough" and self._largest_scope(st) and st["root"][0] != "T" and st["cls"].startswith("Point")):
                 for s, e in pairs:
                     out.append(("path", s, e))
-                for alg, unw in self._sp_letters(st):
+                for alg, unw, k in self._sp_letters(st):
                     for s, e in pairs:
-                        out.append(("sp", s, e, alg, unw))
+                        out.append(("sp", s, e, alg, unw, k))
             if not m.directed:
                 for r in self._mst_roots(st):
                     out.append(("mst", r))
@@ -745,12 +828,23 @@ class C14(Check):
         k = op[0]
         self._vc = st.get("vc", int)
         self._dist_ok = self._csgraph_ok(st)
+        self._opt_product = k in ("static", "tree") and self._dist_ok and st["root"][0] != "X" and st["m"].n <= 12
         if k == "mask":
             return self._op_mask(st, op[1], verify)
         if k == "zero":
             return self._op_zero(st, op[1], op[2], verify)
         if not verify:
             return []
+        if k == "closed-tree":
+            import menpo.shape as ms
+
+            klass = ms.PointTree if st["cls"] == "PointTree" else ms.Tree
+            try:
+                t = ms.chain_graph(ms.PointCloud(self._points(st["m"].n, "closed-tree")), klass, closed=True)
+            except ValueError:
+                self.note("closed-tree:refused")
+                return []
+            return [Failure("chain_graph", "closed-chain-as-tree", "chain_graph(%d points, %s, closed=True) returned %r" % (st["m"].n, klass.__name__, t))]
         if k == "oor":
             return self._op_oor(st, op[1])
         if k == "masklen":
@@ -760,6 +854,11 @@ class C14(Check):
         if k == "static":
             f = self._static(st["g"], st["m"], st["pts"], st["cls"], "queries")
             self.note("static:%s" % ("ok" if not f else "fail"))
+            if st["root"][0] == "O" and not f:
+                c, k2 = CTOR_OPTIONS[st["root"][7]]
+                self.note("ctor-opt:%s:%s:%s:copy=%s:skip_checks=%s" % (st["root"][1], st["root"][5], st["root"][6], c, k2))
+            if st["root"][0] == "F" and st["root"][6] == "gopt" and not f:
+                self.note("grid-opt:%s:%s:%s:%s" % ((st["root"][4],) + tuple(str(x) for x in GRID_OPTIONS[st["root"][3]])))
             if st["root"][0] == "B" and not f:
                 self.note("bnd-ok:%s:%s" % (st["root"][6], st["root"][1]))
             if st["root"][0] == "F" and not f and st["m"].n == 1:
@@ -772,7 +871,7 @@ class C14(Check):
         if k == "path":
             return self._op_path(st, op[1], op[2])
         if k == "sp":
-            return self._op_sp(st, op[1], op[2], op[3], op[4])
+            return self._op_sp(st, op[1], op[2], op[3], op[4], op[5] if len(op) > 5 else False)
         if k == "mst":
             return self._op_mst(st, op[1])
         if k == "astree":
@@ -907,7 +1006,55 @@ class C14(Check):
         Du = np.asarray(g.find_all_shortest_paths(unweighted=True)[0], dtype=float)
         if not np.array_equal(Du, m.dist(True)):
             bad("all-shortest-distances", "unweighted distance matrix %r expected %r" % (Du.tolist(), m.dist(True).tolist()))
+        if self._opt_product:
+            self._static_options(g, m, bad)
         return self._static_points(g, m, pts, F, bad)
+
+    def _static_options(self, g, m, bad):
+        """option cross products of the read-only queries: find_all_shortest_paths(algorithm x unweighted), each
+        option given explicitly, with the predecessor matrix; every per-vertex query with skip_checks=True."""
+        n = m.n
+        V = self._vc
+        neg = any(w < 0 for w in m.w.values())
+        for alg in SP_ALGORITHMS:
+            for unw in (False, True):
+                if not unw and (not self._wsp_ok(m) or (neg and alg == "D")):
+                    continue
+                dist, pred = g.find_all_shortest_paths(algorithm=alg, unweighted=unw)
+                ref = m.dist(unw)
+                self.note("allsp-letter:%s:%s" % (alg, "unweighted" if unw else "weighted"))
+                if not np.array_equal(np.asarray(dist, dtype=float), ref):
+                    bad("all-shortest-distances", "find_all_shortest_paths(algorithm=%r, unweighted=%r) distances %r expected %r (weights %r)" % (alg, unw, np.asarray(dist).tolist(), ref.tolist(), sorted(m.w.items())))
+                    continue
+                if n > 12:
+                    continue
+                for s_ in range(n):
+                    for e_ in range(n):
+                        if s_ == e_ or ref[s_, e_] == INF:
+                            if int(pred[s_, e_]) >= 0:
+                                bad("all-shortest-predecessors", "find_all_shortest_paths(%r, unweighted=%r): predecessor[%d, %d] = %r for %s" % (alg, unw, s_, e_, pred[s_, e_], "start == end" if s_ == e_ else "an unreachable end"))
+                            continue
+                        route, guard = [e_], 0
+                        while route[-1] != s_ and guard <= n:
+                            route.append(int(pred[s_, route[-1]]))
+                            guard += 1
+                        route.reverse()
+                        prob = m.route_problem(route, s_, e_)
+                        if prob or m.route_length(route, unw) != ref[s_, e_]:
+                            bad("all-shortest-predecessors", "find_all_shortest_paths(%r, unweighted=%r): predecessors give route %r from %d to %d (%s), distance %r (weights %r)" % (alg, unw, route, s_, e_, prob or "not shortest", ref[s_, e_], sorted(m.w.items())))
+        for v in range(n):
+            if m.directed:
+                if sorted(_ints(g.children(V(v), skip_checks=True))) != m.out[v] or sorted(_ints(g.parents(V(v), skip_checks=True))) != m.inn[v]:
+                    bad("children", "children / parents(%d, skip_checks=True) = %r / %r expected %r / %r" % (v, g.children(V(v), skip_checks=True), g.parents(V(v), skip_checks=True), m.out[v], m.inn[v]))
+                if g.n_children(V(v), skip_checks=True) != len(m.out[v]) or g.n_parents(V(v), skip_checks=True) != len(m.inn[v]):
+                    bad("n_children/n_parents", "vertex %d with skip_checks=True" % v)
+            else:
+                if sorted(_ints(g.neighbours(V(v), skip_checks=True))) != m.out[v] or g.n_neighbours(V(v), skip_checks=True) != len(m.out[v]):
+                    bad("neighbours", "neighbours(%d, skip_checks=True) = %r expected %r" % (v, g.neighbours(V(v), skip_checks=True), m.out[v]))
+            for b in range(n):
+                if bool(g.is_edge(V(v), V(b), skip_checks=True)) != ((v, b) in m.w):
+                    bad("is_edge", "is_edge(%d, %d, skip_checks=True) = %r" % (v, b, bool(g.is_edge(V(v), V(b), skip_checks=True))))
+        self.note("skip-checks-queries:done")
 
     @staticmethod
     def _static_points(g, m, pts, F, bad):
@@ -956,6 +1103,10 @@ class C14(Check):
                 bad("depth", "depth_of_vertex(%d)=%r expected %d" % (v, t.depth_of_vertex(self._vc(v)), depth[v]))
             if bool(t.is_leaf(self._vc(v))) != (not children[v]):
                 bad("leaf", "is_leaf(%d)=%r but children %r" % (v, t.is_leaf(self._vc(v)), children[v]))
+            if self._opt_product:
+                ps = t.parent(self._vc(v), skip_checks=True)
+                if (None if ps is None else int(ps)) != parent[v] or int(t.depth_of_vertex(self._vc(v), skip_checks=True)) != depth[v] or bool(t.is_leaf(self._vc(v), skip_checks=True)) != (not children[v]):
+                    bad("skip_checks", "parent / depth_of_vertex / is_leaf(%d, skip_checks=True) = %r / %r / %r" % (v, ps, t.depth_of_vertex(self._vc(v), skip_checks=True), t.is_leaf(self._vc(v), skip_checks=True)))
         pl = [None if p is None else int(p) for p in t.predecessors_list]
         if pl != parent:
             bad("parent", "predecessors_list %r expected %r" % (pl, parent))
@@ -978,8 +1129,9 @@ class C14(Check):
         g, m = st["g"], st["m"]
         F = []
         reach = m.dist(True)[s, e] < INF
-        for method in ("bfs", "dfs"):
-            route = _ints(g.find_path(self._vc(s), self._vc(e), method=method))
+        for method, skip in PATH_PRODUCT:
+            route = _ints(g.find_path(self._vc(s), self._vc(e), method=method, skip_checks=skip))
+            self.note("path-letter:%s:%s" % (method, "skip" if skip else "checked"))
             if s == e:
                 if route == [s]:
                     self.note("find_path:start==end-trivial")
@@ -999,21 +1151,23 @@ class C14(Check):
         # every simple path (only where the enumeration is small)
         if m.n <= 5 or len(m.pairs()) <= m.n:
             ref = m.simple_paths(s, e)
-            got = [tuple(_ints(p)) for p in g.find_all_paths(self._vc(s), self._vc(e))]
-            if sorted(got) != ref:
-                F.append(Failure("find_all_paths", "simple-paths", "%s arcs %r: find_all_paths(%d, %d) = %r expected %r" % (st["cls"], m.edge_list(), s, e, got, ref)))
+            for label, kw in (("omitted", {}), ("empty", {"path": []}), ("none", {"path": None})):  # the optional path prefix, given explicitly
+                got = [tuple(_ints(p)) for p in g.find_all_paths(self._vc(s), self._vc(e), **kw)]
+                if sorted(got) != ref:
+                    F.append(Failure("find_all_paths", "simple-paths", "%s arcs %r: find_all_paths(%d, %d, path %s) = %r expected %r" % (st["cls"], m.edge_list(), s, e, label, got, ref)))
             if int(g.n_paths(self._vc(s), self._vc(e))) != len(ref):
                 F.append(Failure("find_all_paths", "n_paths", "n_paths(%d, %d) = %r expected %d" % (s, e, g.n_paths(self._vc(s), self._vc(e)), len(ref))))
             self.note("find_all_paths:%s" % ("none" if not ref else "one" if len(ref) == 1 else "several"))
         return F
 
-    def _op_sp(self, st, s, e, alg, unw):
+    def _op_sp(self, st, s, e, alg, unw, skip=False):
         g, m = st["g"], st["m"]
-        res = g.find_shortest_path(self._vc(s), self._vc(e), algorithm=alg, unweighted=unw)
+        res = g.find_shortest_path(self._vc(s), self._vc(e), algorithm=alg, unweighted=unw, skip_checks=skip)
         route, cost = _ints(res[0]), float(res[1])
-        D = m.dist(unw)
-        ctx = "%s arcs %r: find_shortest_path(%d, %d, %s, unweighted=%r) = (%r, %r)" % (
-            st["cls"], sorted(m.w.items()) if not unw else m.edge_list(), s, e, alg, unw, route, cost)
+        D = m.dist(unw)  # the reference takes the same options: unweighted selects the metric, the algorithm and skip_checks must not matter
+        self.note("sp-letter:%s:%s:%s" % (alg, "unweighted" if unw else "weighted", "skip" if skip else "checked"))
+        ctx = "%s arcs %r: find_shortest_path(%d, %d, algorithm=%r, unweighted=%r, skip_checks=%r) = (%r, %r)" % (
+            st["cls"], sorted(m.w.items()), s, e, alg, unw, skip, route, cost)
         if s == e:
             if route == [s] and cost == 0:
                 self.note("sp:start==end-trivial")
@@ -1033,6 +1187,8 @@ class C14(Check):
         if length != D[s, e]:
             return [Failure("find_shortest_path", "route-not-shortest", ctx + ": the route weighs %r, Floyd-Warshall distance is %r" % (length, D[s, e]))]
         hops = min(len(route) - 1, 4)
+        if unw and self._wsp_ok(m) and m.route_length(route, False) > m.dist(False)[s, e]:
+            self.note("sp:fewest-edges-route-is-not-the-lightest:%s" % alg)
         if st.get("zeros") == "built":
             self.note("sp:stored-zero-letter")
         if not unw and any(w < 0 for w in m.w.values()):
@@ -1271,6 +1427,19 @@ class C14(Check):
         ):
             if not notes.get(tag):
                 out.append("boundary outcome %s never produced" % tag)
+        want = ["sp-letter:%s:%s:%s" % (a, "unweighted" if u else "weighted", "skip" if k else "checked") for (a, u, k) in SP_PRODUCT]
+        want += ["sp:fewest-edges-route-is-not-the-lightest:%s" % a for a in SP_ALGORITHMS]
+        want += ["allsp-letter:%s:%s" % (a, u) for a in SP_ALGORITHMS for u in ("weighted", "unweighted")]
+        want += ["path-letter:%s:%s" % (mth, "skip" if k else "checked") for (mth, k) in PATH_PRODUCT]
+        want += ["skip-checks-queries:done", "closed-tree:refused"]
+        for sub in ("U", "D", "T"):
+            for cls in ("A", "P"):
+                for v in ("el", "ad", "ac"):
+                    for (c, k) in CTOR_OPTIONS:
+                        if not (v == "el" and cls == "A" and sub != "T" and not c):
+                            want.append("ctor-opt:%s:%s:%s:copy=%s:skip_checks=%s" % (sub, cls, v, c, k))
+        want += ["grid-opt:%s:%s:%s:%s" % ((kind,) + tuple(str(x) for x in o)) for kind in ("U", "D") for o in GRID_OPTIONS]
+        out += ["option letter %s never exercised" % w for w in want if not notes.get(w)]
         for factor, forms in FORM_FACTORS.items():
             for form in forms:
                 for size in ("small", "n>12"):
@@ -1305,6 +1474,16 @@ class C14(Check):
             "directed_variants": D_VARIANTS,
             "tree_variants": T_VARIANTS,
             "full_alphabet_variants": list(FULL_VARIANTS),
+            "option_products": {
+                "find_shortest_path": "algorithm(5) x unweighted(2) x skip_checks(2): full product on weighted small-scope letters of the abstract classes, all pairs (10 calls) elsewhere",
+                "find_all_shortest_paths": "algorithm(5) x unweighted(2), distances and predecessors",
+                "find_path": "method(2) x skip_checks(2)",
+                "find_all_paths": "path omitted / [] / None",
+                "per-vertex queries": "skip_checks(2)",
+                "constructors": "copy(2) x skip_checks(2) x {edges, dense adjacency, csr adjacency} x {abstract, point} x {undirected, directed, tree}",
+                "init_2d_grid": "spacing(3) x adjacency_matrix given(2) x skip_checks(2)",
+                "chain_graph": "graph_cls(6) x closed(2)",
+            },
             "boundary_variants": B_VARIANTS,
             "zero_weight_csgraph_ops": ZERO_WEIGHT_CSGRAPH_OPS,
             "zop_csgraph_ops": ZOP_CSGRAPH_OPS,
@@ -1320,6 +1499,8 @@ class C14(Check):
             "boundary letters (kind B roots, every undirected graph n<=4, digraph n<=3, rooted tree n<=4, abstract and point-carrying): csr adjacency with every position stored (non-edges as explicit zeros) / with one stored zero; edges removed by assigning 0 into adjacency_matrix; weights of both signs; all weights equal; on every root vertex numbers -1 and n (documented ValueError) and masks of length n-1 / n+1; predefined families on 1, 2, 3 vertices and 1x1 / 1x4 / 4x1 / 2x2 grids",
             "a stored zero is a non-edge (documented).  Construction letters az / az1 get the whole alphabet (paths, shortest paths, distances, MST, Tree construction, tree masks included; ZERO_WEIGHT_CSGRAPH_OPS=%r).  The 'zop' letters assign 0 into the public adjacency_matrix AFTER construction: that mutates a public attribute behind the object's back and is outside the property, so they are asked only the queries that never reach scipy.csgraph (ZOP_CSGRAPH_OPS=%r)" % (ZERO_WEIGHT_CSGRAPH_OPS, ZOP_CSGRAPH_OPS),
             "[interp] weighted shortest paths are judged only where they are defined (no negative weight, or an acyclic digraph); minimum_spanning_tree with a root outside [0, n-1] and PointTree.init_2d_grid on one-row / one-column grids are not judged",
+            "option cross products (every documented keyword option given explicitly, the reference taking the same options): find_shortest_path algorithm x unweighted x skip_checks - the FULL product (20 calls per start/end pair) on every weighted letter of the small scope for the abstract classes in both tiers, all PAIRS of option values (10 calls: every algorithm with every unweighted value, skip_checks alternating) on the point-carrying classes (which inherit the method), unit-weight letters, families and the largest thorough scope (argument-form roots keep the default options: they vary one argument at a time); find_all_shortest_paths algorithm x unweighted (distances and predecessor routes), find_path method x skip_checks, find_all_paths path omitted/[]/None, every per-vertex query with skip_checks=True (graphs of at most 12 vertices), constructors copy x skip_checks (kind O roots: undirected n<=3 (thorough 4), directed n<=3, trees n<=4; edge array, dense and csr adjacency; abstract and point-carrying), init_2d_grid spacing x adjacency_matrix x skip_checks, chain_graph graph_cls x closed",
+            "weighted algorithm letters are left out only where the textbook answer is undefined: algorithm 'D' (Dijkstra) with negative weights, and every weighted letter on graphs with a possible negative cycle; skip_checks=True is only combined with valid vertex numbers",
             "simple graphs only (no self loops); weights are distinct positive integers stored as floats, so all sums are exact",
             (
                 "quick: every mask/pair/root for undirected n<=4, directed n<=3, trees n<=4; undirected n=5 and directed n=4 get the static queries (and Tree(root) readings) only"
